@@ -95,9 +95,10 @@ type espec struct {
 }
 
 type fileSpec struct {
-	pkg   string
-	enums []espec
-	msgs  []mspec
+	pkg      string
+	enums    []espec
+	msgs     []mspec
+	flatUsed map[string]bool // a message is flattened by at most one field of the file (unique JSON names)
 }
 
 func scalarKinds() []fkind {
@@ -115,7 +116,7 @@ func genFileSpec(seed uint64) *fileSpec {
 		return showcaseRecursive(pkg)
 	}
 	r := rand.New(rand.NewPCG(seed, 0xc0dec5eed))
-	fs := &fileSpec{pkg: pkg}
+	fs := &fileSpec{pkg: pkg, flatUsed: map[string]bool{}}
 	// enums
 	ne := 1 + r.IntN(3)
 	for i := 0; i < ne; i++ {
@@ -256,12 +257,16 @@ func genObject(r *rand.Rand, fs *fileSpec, mi int, names, wnames []string) mspec
 		if kind == kObject && f.card == cSingle && r.IntN(3) == 0 {
 			// flatten only "downwards" so that ClientProperties terminates
 			if mi+1 < len(names) {
-				f.ref = names[mi+1+r.IntN(len(names)-mi-1)]
-				f.flatten = true
+				cand := names[mi+1+r.IntN(len(names)-mi-1)]
+				if !fs.flatUsed[cand] {
+					fs.flatUsed[cand] = true
+					f.ref = cand
+					f.flatten = true
+				}
 			}
 		}
 		if r.IntN(15) == 0 {
-			f.jsonName = []string{"custom name", "q\"uote", "ключ", "tab\tbed", "emoji😀"}[r.IntN(5)] + fmt.Sprint(k)
+			f.jsonName = []string{"custom name", "q\"uote", "ключ", "tab\tbed", "emoji😀"}[r.IntN(5)] + fmt.Sprintf("%d_%d", mi, k)
 		}
 		add(f)
 	}
